@@ -476,9 +476,18 @@ var codecImpl = map[string]core.Adapter{
 			fv.Set(reflect.Zero(fv.Type()))
 			readGoValue(fv, tr)
 		}
+		state0 := dumpGoRecord(v.Elem())
 		text, err := marshalGo(v.Elem())
 		if err != nil {
 			return "FAIL marshal: " + err.Error()
+		}
+		// marshalling reads the struct, it does not change it: a second marshal of the same
+		// struct gives the same bytes and the struct (incl. the embedded Paragraph) is as before
+		if state1 := dumpGoRecord(v.Elem()); state1 != state0 {
+			return fmt.Sprintf("FAIL marshalling changed the struct: %s -> %s", clipStr(state0, 200), clipStr(state1, 200))
+		}
+		if again, err := marshalGo(v.Elem()); err != nil || again != text {
+			return fmt.Sprintf("FAIL a second marshal of the same struct differs: %q then %q", clipStr(text, 200), clipStr(again, 200))
 		}
 		before, err1 := readAllParas(in)
 		after, err2 := readAllParas(text)
